@@ -14,6 +14,8 @@ import (
 	"os"
 	"reflect"
 	"testing"
+	"time"
+	"unsafe"
 
 	ipfscluster "github.com/ipfs/ipfs-cluster"
 	"github.com/ipfs/ipfs-cluster/api"
@@ -24,7 +26,12 @@ import (
 	"github.com/ipfs/ipfs-cluster/datastore/badger"
 	"github.com/ipfs/ipfs-cluster/datastore/leveldb"
 
+	"github.com/ipfs/ipfs-cluster/state/dsstate"
+
+	hraft "github.com/hashicorp/raft"
 	cid "github.com/ipfs/go-cid"
+	rpc "github.com/libp2p/go-libp2p-gorpc"
+	libp2praft "github.com/libp2p/go-libp2p-raft"
 	logging "github.com/ipfs/go-log/v2"
 	peer "github.com/libp2p/go-libp2p-core/peer"
 
@@ -143,6 +150,8 @@ func runState(e *env, id int, c seqCase) (o seqObs) {
 		}
 	case "export-real":
 		return runRealExport(e, id, c, o)
+	case "raftlog-fsm":
+		return o // handled by runFSM (two observations)
 	default:
 		return fail(fmt.Errorf("unknown state format %s", c.Fmt))
 	}
@@ -256,6 +265,7 @@ func TestSequences(t *testing.T) {
 	e := newEnv(hx.Seed())
 	per := map[string]int{}
 	items := 0
+	skipped := 0
 	for i, l := range lines {
 		var c seqCase
 		if err := json.Unmarshal(l, &c); err != nil || c.Rec == "" || len(c.Items) == 0 {
@@ -270,12 +280,34 @@ func TestSequences(t *testing.T) {
 				}
 			}()
 			switch c.Fmt {
+			case "pubsub-live":
+				var o2 seqObs
+				o, o2 = runLive(e, i+1, c)
+				if o2.Rec != "" {
+					enc.Encode(o2)
+					per[c.Rec+"/"+o2.Fmt]++
+				}
+			case "raftlog-fsm":
+				var o2 seqObs
+				o, o2 = runFSM(e, i+1, c)
+				if o2.Rec != "" {
+					enc.Encode(o2)
+					per[c.Rec+"/"+o2.Fmt]++
+				}
 			case "snapshot-fresh", "snapshot-nonempty", "export", "export-real":
 				o = runState(e, i+1, c)
 			default:
 				o = runList(e, i+1, c)
 			}
 		}()
+		if seqInfra != "" {
+			res.Infra("%s", seqInfra)
+			return
+		}
+		if o.Stage == "skipped" && o.Rec == "" {
+			skipped++
+			continue
+		}
 		if o.Rec == "" {
 			return
 		}
@@ -294,7 +326,8 @@ func TestSequences(t *testing.T) {
 		}
 		res.Case(map[string]interface{}{"rec": c.Rec, "fmt": c.Fmt, "items": c.Items}, distinct)
 	}
-	res.Set("sequences_executed", len(lines))
+	res.Set("sequences_executed", len(lines)-skipped)
+	res.Set("live_sequences_skipped_after_losses", skipped)
 	res.Set("sequence_items_executed", items)
 	res.Set("sequences_per_record_and_format", per)
 }
@@ -398,4 +431,140 @@ func runRealExport(e *env, id int, c seqCase, o seqObs) (out seqObs) {
 		out.Extra = 0
 	}
 	return out
+}
+
+// ---- decode into a reused target: the real go-libp2p-raft FSM over consensus/raft LogOps -----------------------
+
+type trackerSvc struct{ ch chan *api.Pin }
+
+func (t *trackerSvc) Track(ctx context.Context, in *api.Pin, out *struct{}) error {
+	q := hx.ClonePin(in)
+	q.Origins = in.Origins
+	t.ch <- q
+	return nil
+}
+
+func (t *trackerSvc) Untrack(ctx context.Context, in *api.Pin, out *struct{}) error {
+	t.ch <- nil
+	return nil
+}
+
+func setUnexported(obj interface{}, field string, val interface{}) error {
+	v := reflect.ValueOf(obj).Elem().FieldByName(field)
+	if !v.IsValid() {
+		return fmt.Errorf("%T has no field %q", obj, field)
+	}
+	reflect.NewAt(v.Type(), unsafe.Pointer(v.UnsafeAddr())).Elem().Set(reflect.ValueOf(val))
+	return nil
+}
+
+type fsmRig struct {
+	svc *trackerSvc
+	st  *dsstate.State
+	fsm *libp2praft.FSM
+	idx uint64
+	err error
+}
+
+var theFSM *fsmRig
+var seqInfra string
+
+// getFSM builds once what raft.NewConsensus builds (consensus.go): dsstate on an in-memory store,
+// libp2praft.NewOpLog(state, &LogOp{consensus: cc}) and its FSM. consensus/rpcClient are unexported and set by
+// reflection (a rename is an infrastructure error).
+func getFSM() *fsmRig {
+	if theFSM != nil {
+		return theFSM
+	}
+	r := &fsmRig{svc: &trackerSvc{ch: make(chan *api.Pin, 64)}}
+	theFSM = r
+	srv := rpc.NewServer(nil, "/verif/c08")
+	if r.err = srv.RegisterName("PinTracker", r.svc); r.err != nil {
+		return r
+	}
+	client := rpc.NewClientWithServer(nil, "/verif/c08", srv)
+	r.st = newState()
+	baseOp := &raft.LogOp{}
+	cc := &raft.Consensus{}
+	if r.err = setUnexported(cc, "rpcClient", client); r.err != nil {
+		return r
+	}
+	if r.err = setUnexported(baseOp, "consensus", cc); r.err != nil {
+		return r
+	}
+	r.fsm = libp2praft.NewOpLog(r.st, baseOp).FSM()
+	return r
+}
+
+// apply commits one LogOp, encoded as go-libp2p-raft's encodeOp does, and waits for the tracker hand-off.
+func (r *fsmRig) apply(kind raft.LogOpType, p *api.Pin) (*api.Pin, error) {
+	data, err := mpEncode(&raft.LogOp{Cid: p, Type: kind})
+	if err != nil {
+		return nil, fmt.Errorf("encode: %v", err)
+	}
+	r.idx++
+	if out := r.fsm.Apply(&hraft.Log{Index: r.idx, Term: 1, Type: hraft.LogCommand, Data: data}); out == nil {
+		return nil, fmt.Errorf("FSM.Apply failed")
+	}
+	select {
+	case q := <-r.svc.ch:
+		return q, nil
+	case <-time.After(30 * time.Second):
+		return nil, fmt.Errorf("no tracker hand-off")
+	}
+}
+
+func runFSM(e *env, id int, c seqCase) (o, ot seqObs) {
+	o = seqObs{ID: id, Rec: c.Rec, Fmt: c.Fmt, Items: c.Items, Got: []itemObs{}}
+	ot = seqObs{ID: id, Rec: c.Rec, Fmt: c.Fmt + "-track", Items: c.Items, Got: []itemObs{}}
+	stage := "setup"
+	defer func() {
+		if r := recover(); r != nil {
+			o.OK, o.Stage, o.Err = false, "panic-"+stage, fmt.Sprint(r)
+			ot.OK, ot.Stage, ot.Err = false, "panic-"+stage, fmt.Sprint(r)
+		}
+	}()
+	r := getFSM()
+	if r.err != nil {
+		seqInfra = "raft FSM rig: " + r.err.Error()
+		return seqObs{}, seqObs{}
+	}
+	ctx := context.Background()
+	stage = "apply"
+	o.OK, ot.OK = true, true
+	for i, v := range c.Items {
+		handed, err := r.apply(raft.LogOpPin, e.slotPin(id, i+1, v))
+		if err != nil {
+			o.OK, o.Stage, o.Err = false, stage, err.Error()
+			ot.OK, ot.Stage, ot.Err = false, stage, err.Error()
+			break
+		}
+		if handed == nil {
+			ot.Got = append(ot.Got, itemObs{Got: map[string]interface{}{}, Err: "untrack instead of track"})
+		} else {
+			ot.Got = append(ot.Got, e.absSlotPin(i+1, handed))
+		}
+	}
+	stage = "read"
+	found := 0
+	if o.OK {
+		for i, v := range c.Items {
+			p, err := r.st.Get(ctx, e.slotCid(i+1, v))
+			if err != nil {
+				o.Got = append(o.Got, itemObs{Got: map[string]interface{}{}, Err: err.Error()})
+				continue
+			}
+			found++
+			o.Got = append(o.Got, e.absSlotPin(i+1, p))
+		}
+		if all, err := r.st.List(ctx); err == nil && len(all) > found {
+			o.Extra = len(all) - found
+		}
+	}
+	// unpin everything again through the log: the next case decodes on top of these entries
+	stage = "unpin"
+	for i, v := range c.Items {
+		r.apply(raft.LogOpUnpin, api.PinCid(e.slotCid(i+1, v)))
+	}
+	return o, ot
 }
